@@ -104,6 +104,18 @@ class CallGraph:
 
     def _sites_of(self, f: FuncInfo) -> list[CallSite]:
         prog, types, m = self.prog, self.types, f.module
+
+        def walk_no_nested(node: ast.AST):  # as prog.walk_no_nested, but lambdas belong to the enclosing function (reduce(lambda r, f: f.apply_on_rule(r), …))
+            stack = [node]
+            first = True
+            while stack:
+                n = stack.pop()
+                if not first and isinstance(n, (ast.FunctionDef, ast.AsyncFunctionDef, ast.ClassDef)):
+                    continue
+                first = False
+                yield n
+                stack.extend(reversed(list(ast.iter_child_nodes(n))))
+
         sites: list[CallSite] = []
         call_funcs: set[int] = set()
         for n in walk_no_nested(f.node):
@@ -190,6 +202,28 @@ class CallGraph:
                 else:
                     self.unresolved.append((f.qual, n))
                 sites.append(CallSite(f.qual, n, callees, kind))
+            elif isinstance(n, (ast.Subscript, ast.Compare, ast.BinOp)):
+                # operator dunders of program classes: x[k] → __getitem__/__setitem__, a in b → __contains__, a + b → __add__/__radd__
+                pairs: list[tuple[ast.AST, str]] = []
+                if isinstance(n, ast.Subscript):
+                    pairs.append((n.value, "__getitem__" if isinstance(n.ctx, ast.Load) else "__setitem__" if isinstance(n.ctx, ast.Store) else "__delitem__"))
+                elif isinstance(n, ast.Compare):
+                    for op, right in zip(n.ops, n.comparators):
+                        if isinstance(op, (ast.In, ast.NotIn)):
+                            pairs.append((right, "__contains__"))
+                        elif isinstance(op, (ast.Lt, ast.Gt, ast.LtE, ast.GtE)):
+                            pairs.append((n.left, {ast.Lt: "__lt__", ast.Gt: "__gt__", ast.LtE: "__le__", ast.GtE: "__ge__"}[type(op)]))
+                elif isinstance(n.op, ast.Add):
+                    pairs += [(n.left, "__add__"), (n.right, "__radd__")]
+                tg = []
+                for recv_e, meth in pairs:
+                    for rc in types.class_names(m, recv_e):
+                        if rc in prog.classes:
+                            for cand in self._cha([rc], meth):
+                                if cand not in tg:
+                                    tg.append(cand)
+                if tg:
+                    sites.append(CallSite(f.qual, n, tg, "operator"))
             elif isinstance(n, ast.Attribute) and isinstance(n.ctx, ast.Load) and id(n) not in call_funcs:
                 # property reads
                 recv = types.receiver_classes(m, n)
